@@ -165,4 +165,5 @@ func registerIntrinsics(vm *VM) {
 	registerParser(vm)
 	registerMisc(vm)
 	registerUTF8(vm)
+	registerEnv(vm)
 }
